@@ -10,7 +10,7 @@ from vf.fixtures import wone_of
 from vf.engine import Violation, InvalidCase
 
 PROPERTY = "C19"
-BUDGET = {"quick": 2400, "thorough": 5000}
+BUDGET = {"quick": 3000, "thorough": 9000}
 RULE = ("Histories (1-25 ops) of add_tag(name) / get_tag_name(id) / unknown-name lookups over 1-3 libraries alive at once; "
         "library 0 is a local TagLibrary, a freshly loaded copy of the Tags module (module-level API) or - ~3% of cases - "
         "the real global library in a FRESH INTERPRETER (one per history). Names: ordinary identifiers, duplicates, 'NONE', "
@@ -275,12 +275,14 @@ def strategy(tier):
     methods = ["add_tag", "get_tag_name", "itemize", "__len__", "__class__", "__dict__", "_tag_names", "_tag_counter",
                "TagLibrary", "_module_library", "__getattr__", "DuplicateTagError"]
     ordinary = st.sampled_from(["A", "B", "SHEEP", "WOLF", "PREY", "T1", "T2", "X_1", "GRASS"])
-    name = wone_of(ordinary, ordinary, st.sampled_from(hostile), st.sampled_from(methods), st.just("NONE"),
+    # names that LOOK special (dunder / underscore style) but are nobody's attribute: perfectly good tag names
+    lookalike = st.sampled_from(["__x__", "__tag__", "__wolf__", "__prey__", "_hidden", "__mangled", "__X", "_", "__"])
+    name = wone_of(ordinary, ordinary, st.sampled_from(hostile), st.sampled_from(methods), st.just("NONE"), lookalike,
                      st.text(max_size=6), st.from_regex(ORDINARY, fullmatch=True))
     add = st.fixed_dictionaries({"op": st.just("add"), "lib": st.integers(0, 2), "name": name})
     look = st.fixed_dictionaries({"op": st.just("lookup"), "lib": st.integers(0, 2), "id": st.integers(-2, 12)})
     unk = st.fixed_dictionaries({"op": st.just("unknown"), "lib": st.integers(0, 2), "n": st.integers(0, 4)})
-    gk = st.integers(0, 39).map(lambda v: "interpreter" if v == 0 else ("fresh-module" if v <= 10 else "none"))
+    gk = st.integers(0, 39).map(lambda v: "interpreter" if v <= 1 else ("fresh-module" if v <= 12 else "none"))
     from vf.fixtures import near_pow2
     # long libraries: block-wise / cached paths only differ from the plain ones at or beyond a size threshold
     long_hist = near_pow2(15, 130).flatmap(lambda n: st.fixed_dictionaries({
